@@ -15,6 +15,7 @@ import (
 type Clause struct {
 	Kind   string // requires, ensures, invariant, decreases, sink, cover, lemma, axiom, define, assume-ensures
 	Loop   int    // loop ordinal for invariant/decreases
+	LoopAnchor string // `loop @callee ...`: the innermost loop whose body calls callee (robust against reordering of loops)
 	Callee string // sink: callee key
 	Ord    int    // sink: ordinal (0 = all)
 	Text   string
@@ -60,6 +61,7 @@ type Contract struct {
 	Covers    []*Clause
 	Axioms    []*Clause // definitional axioms of ghost functions, assumed at entry (listed as assumptions)
 	Unroll    map[int]int // loop ordinal -> unroll count (bounded stand-in)
+	UnrollAnchor map[string]int // the same, for loops named by a callee
 	HO        string      // higher-order summary: "once" (invokes func args at most once)
 	External  bool
 	File      string
@@ -199,7 +201,7 @@ func (cs *ContractSet) loadFile(path, pkg string, external bool) error {
 			filePkg = rest
 			continue
 		case "func":
-			cur = &Contract{Key: rest, Pkg: filePkg, External: external, File: rl.file, Line: rl.line, Nullable: map[string]bool{}, Nonnil: map[string]bool{}, Unroll: map[int]int{}}
+			cur = &Contract{Key: rest, Pkg: filePkg, External: external, File: rl.file, Line: rl.line, Nullable: map[string]bool{}, Nonnil: map[string]bool{}, Unroll: map[int]int{}, UnrollAnchor: map[string]int{}}
 			curGhost = nil
 			k := normKey(rest)
 			if isPatternKey(rest) {
@@ -347,26 +349,36 @@ func (cs *ContractSet) loadFile(path, pkg string, external bool) error {
 			if len(f) < 3 {
 				return fmt.Errorf("%s:%d: bad loop clause", rl.file, rl.line)
 			}
-			k, err := strconv.Atoi(f[0])
-			if err != nil {
-				return fmt.Errorf("%s:%d: bad loop ordinal", rl.file, rl.line)
+			k, anchor := 0, ""
+			if strings.HasPrefix(f[0], "@") {
+				anchor = f[0][1:]
+			} else {
+				var err error
+				k, err = strconv.Atoi(f[0])
+				if err != nil {
+					return fmt.Errorf("%s:%d: bad loop ordinal", rl.file, rl.line)
+				}
 			}
 			body := strings.TrimSpace(strings.TrimPrefix(strings.TrimSpace(strings.TrimPrefix(rest, f[0])), f[1]))
 			switch f[1] {
 			case "invariant":
 				cl := mkClause("invariant", body)
-				cl.Loop = k
+				cl.Loop, cl.LoopAnchor = k, anchor
 				cur.Invs = append(cur.Invs, cl)
 			case "decreases":
 				cl := mkClause("decreases", body)
-				cl.Loop = k
+				cl.Loop, cl.LoopAnchor = k, anchor
 				cur.Decreases = append(cur.Decreases, cl)
 			case "unroll":
 				n, err := strconv.Atoi(f[2])
 				if err != nil {
 					return fmt.Errorf("%s:%d: bad unroll count", rl.file, rl.line)
 				}
-				cur.Unroll[k] = n
+				if anchor != "" {
+					cur.UnrollAnchor[anchor] = n
+				} else {
+					cur.Unroll[k] = n
+				}
 			default:
 				return fmt.Errorf("%s:%d: unknown loop clause %q", rl.file, rl.line, f[1])
 			}
